@@ -340,8 +340,8 @@ fn parse_compressed<'a>(input: &'a [u8], cache: &AtomCache) -> NomResult<'a, Own
     let consumed = decoder.total_in() as usize;
 
     let owned_term = match parse_term(&decompressed, cache) {
-        Ok((_remaining, term)) => term,
-        Err(_) => return Err(nom::Err::Failure(NomError::new(input, ErrorKind::Fail))),
+        Ok((remaining, term)) if remaining.is_empty() => term,
+        _ => return Err(nom::Err::Failure(NomError::new(input, ErrorKind::Fail))),
     };
 
     Ok((&rest[consumed..], owned_term))
